@@ -26,6 +26,14 @@ def check(k, seed):
         prms.setdefault('LAYERING_PRMS', {})['min_okta_to_split'] = rng.choice([0, 1, 4])
     if rng.random() < 0.2:
         prms.setdefault('LOWESS', {})['frac'] = rng.choice([0.1, 0.35, 1.0])
+    if rng.random() < 0.3:
+        # the documented alternatives of the mixture-model options ("None = no rescaling", AIC / BIC, delta / prob)
+        gk = prms.setdefault('LAYERING_PRMS', {}).setdefault('gmm_kwargs', {})
+        gk['rescale_0_to_x'] = rng.choice([None, None, 20, 100])
+        if rng.random() < 0.5:
+            gk['scores'] = rng.choice(['AIC', 'BIC'])
+        if rng.random() < 0.5:
+            gk['mode'] = rng.choice(['prob', 'delta'])
     fails = []
     try:
         with warnings.catch_warnings():
